@@ -2,6 +2,7 @@ import AcraModel.AuditLog.ChainLemmas
 import AcraModel.AuditLog.ChainAlter
 import AcraModel.AuditLog.ParseLemmas
 import AcraModel.AuditLog.JsonRoundTrip
+import AcraModel.AuditLog.JsonNested
 import AcraModel.Crypto.Box
 /-!
 # C20 — the audit-log integrity chain verifies when intact and fails when altered
@@ -35,6 +36,11 @@ theorem fact_hooks : plaintextHookCut = 1 ∧ cefHookCut = 2 ∧ plaintextTrimsT
 
 /-- the file reader has no line-length limit (after the repair of the 64 KiB scanner defect) -/
 theorem fact_reader : lineReader = "reader" := by decide
+
+/-- the read loop of `processLogFile` hands a (non-empty) line to the verifier BEFORE `io.EOF` ends the
+function – `ReadString` returns an unterminated last line together with `io.EOF` (seeded change C20-5 moves the
+`io.EOF` return in front: that line is then never verified) –, and strips one `\n`, then one `\r` -/
+theorem fact_reader_loop : readerLoop = stdLoop ∧ readerTrims = stdTrims := by decide
 
 /-- the verifier skips exactly the three "no integrity part" errors -/
 theorem fact_verifierSkips :
@@ -162,10 +168,104 @@ theorem honest_plaintext_file_verifies (c : CryptoOps) (key : Bytes) (items : Li
   have hread : scanLines ((produceLines c key (Calc.new c key) items).flatMap fun l => l ++ [10]) =
       produceLines c key (Calc.new c key) items := by
     unfold scanLines
-    rw [fact_reader]
+    rw [fact_reader, fact_reader_loop.1, fact_reader_loop.2]
     exact scanLines_join _ (hclean items _ hlf)
   rw [hread]
   exact honest_plaintext_verifies c key items hres
+
+/-! ### from entry lists to FILE BYTES -/
+
+/-- **The file reader yields every line.** For EVERY file content: the raw chunks `processLogFile` hands to its
+delivering branch, put one after the other, ARE the file (no byte is dropped – an unterminated last line
+included); every chunk is non-empty with no `\n` before its last byte, and every chunk but the last ends in
+`\n` (so the chunks are the maximal newline-free pieces with their terminators); what the verifier receives
+are these chunks with the suffixes of `readerTrims` removed. The statement order of the loop is the regenerated
+`readerLoop`; with `return-eof` in front of `deliver` (seeded change C20-5) the first conjunct is false for
+every file that does not end in `\n`. -/
+theorem reader_yields_every_line (file : Bytes) :
+    (readChunks readerLoop file []).flatten = file ∧
+    (∀ ch ∈ readChunks readerLoop file [], ch ≠ [] ∧ ∀ x ∈ ch.dropLast, x ≠ 10) ∧
+    (∀ ch ∈ (readChunks readerLoop file []).dropLast, ch.getLast? = some 10) ∧
+    scanLines file = (readChunks readerLoop file []).map (trimLine readerTrims) := by
+  refine ⟨?_, ?_, ?_, ?_⟩
+  · rw [fact_reader_loop.1]; simpa using readChunks_std_flatten file []
+  · rw [fact_reader_loop.1]; exact readChunks_std_shape file [] (by simp)
+  · rw [fact_reader_loop.1]; exact readChunks_std_terminated file []
+  · unfold scanLines scanLinesWith
+    rw [fact_reader]
+    simp
+
+/-- **What the verifier decides about a FILE is what `verify` decides about ALL of its lines** – the lines
+being the file split at every `\n`, an unterminated last line counting as a line, one trailing `\r` removed
+(`rawLines`/`dropCR`: the specification of line splitting, independent of the loop's statement order). -/
+theorem file_verify_checks_every_line (c : CryptoOps) (key : Bytes) (parse : Bytes → Line) (file : Bytes) :
+    verifyFile c key parse file = verify c key (((rawLines file []).map dropCR).map parse) := by
+  unfold verifyFile scanLines
+  rw [fact_reader, fact_reader_loop.1, fact_reader_loop.2, scanLinesWith_std]
+
+/-- **Lifting.** A file made of the lines `ls` (no line feed inside a line, no trailing carriage return) – each
+followed by `\n`, or the same file WITHOUT the final `\n` (last line non-empty) – gets the verdict of the entry
+list parsed from all of `ls`. Every entry-level theorem of this file (`edit_detected`, `delete_detected`,
+`swap_detected`, `duplicate_detected`, `wrong_key_fails` …) therefore holds of the file bytes, in both shapes,
+the last line included. -/
+theorem file_verdict_is_lines_verdict (c : CryptoOps) (key : Bytes) (parse : Bytes → Line) (ls : List Bytes) (term : Bool)
+    (hclean : ∀ l ∈ ls, (∀ x ∈ l, x ≠ 10) ∧ l.getLast? ≠ some 13)
+    (hlast : term = false → ls.getLast? ≠ some []) :
+    verifyFile c key parse (fileOf ls term) = verify c key (ls.map parse) := by
+  unfold verifyFile scanLines
+  rw [fact_reader, fact_reader_loop.1, fact_reader_loop.2, scanLines_fileOf ls term hclean hlast]
+
+/-- the same for several files read one after the other (`acra-log-verifier` with a list of rotated files):
+one verifier run over the lines of all files in order; each file with or without its final `\n` -/
+theorem files_verdict_is_lines_verdict (c : CryptoOps) (key : Bytes) (parse : Bytes → Line) (fs : List (List Bytes × Bool))
+    (hclean : ∀ f ∈ fs, ∀ l ∈ f.1, (∀ x ∈ l, x ≠ 10) ∧ l.getLast? ≠ some 13)
+    (hlast : ∀ f ∈ fs, f.2 = false → f.1.getLast? ≠ some []) :
+    verifyFiles c key parse (fs.map fun f => fileOf f.1 f.2) = verify c key ((fs.flatMap fun f => f.1).map parse) := by
+  unfold verifyFiles
+  congr 2
+  induction fs with
+  | nil => rfl
+  | cons f r ih =>
+    simp only [List.map_cons, List.flatMap_cons]
+    rw [ih (fun g hg => hclean g (List.mem_cons_of_mem _ hg)) (fun g hg => hlast g (List.mem_cons_of_mem _ hg))]
+    congr 1
+    unfold scanLines
+    rw [fact_reader, fact_reader_loop.1, fact_reader_loop.2,
+      scanLines_fileOf f.1 f.2 (hclean f List.mem_cons_self) (hlast f List.mem_cons_self)]
+
+/-- the lines the plaintext hook writes, read by the plaintext parser, are the honest entries -/
+theorem plaintext_lines_parse (c : CryptoOps) (key : Bytes) (items : List LItem) :
+    (produceLines c key (Calc.new c key) items).map (parseLine .last false) = honestLines c key (items.map toPItem) := by
+  have hmap : ∀ (its : List LItem) (st : Calc),
+      (produceLines c key st its).map (parseLine .last false) =
+        (produce c key st (its.map toPItem)).map Line.entry := by
+    intro its
+    induction its with
+    | nil => intro st; rfl
+    | cons it r ih =>
+      intro st
+      simp only [produceLines, appendIntegrity, List.map_cons, produce, toPItem]
+      rw [render_parse_plain]
+      congr 1
+      exact ih _
+  exact hmap items _
+
+/-- the lines the plaintext hook writes contain no line feed and do not end in a carriage return (when the
+formatter outputs contain no line feed – logrus escapes them) -/
+theorem plaintext_lines_clean (c : CryptoOps) (key : Bytes) : ∀ (its : List LItem) (st : Calc),
+    (∀ it ∈ its, ∀ x ∈ it.formatted, x ≠ 10) →
+    ∀ l ∈ produceLines c key st its, (∀ x ∈ l, x ≠ 10) ∧ l.getLast? ≠ some 13 := by
+  intro its
+  induction its with
+  | nil => intro st _ l hl; cases hl
+  | cons it r ih =>
+    intro st hf l hl
+    simp only [produceLines, appendIntegrity, List.mem_cons] at hl
+    rcases hl with rfl | hl
+    · have := rendered_clean it.formatted (st.step c it.formatted).2.1 (st.step c it.formatted).2.2
+        (hf it List.mem_cons_self)
+      simpa [tagPart, List.append_assoc] using this
+    · exact ih _ (fun x hx => hf x (List.mem_cons_of_mem _ hx)) l hl
 
 /-- **Honest CEF logs verify, whatever the messages and fields contain** (for a hash with non-empty
 output – true of SHA-256). -/
@@ -238,7 +338,10 @@ encoder and decoder are modelled and `decodeTop_marshal` is proved.
 
 `_partial`: values that are arrays or objects (slices, maps, structs passed as fields) are not covered by
 the PROOF of `decodeTop (marshal m) = m` (for them the statement is `render_parse_json_of_roundtrip`, with
-that equation as hypothesis; it is checked by correspondence on generated nested values). -/
+that equation as hypothesis; it is checked by correspondence on generated nested values).
+
+Superseded by `render_parse_json` below, which proves the equation for nested values too (`AuditLog/JsonNested.lean`);
+kept because `honest_json_verifies` and the scalar class `JsonClass` are referred to elsewhere. -/
 theorem render_parse_json_partial (c : CryptoOps) (st : Calc) (o : Obj) (h : JsonClass st o) :
     jsonParse (jsonHookObj c st o).2 =
       .entry ⟨conv o, (st.step c (conv o)).2.1, (st.step c (conv o)).2.2, jIsEnd o⟩ := by
@@ -272,6 +375,75 @@ theorem honest_json_verifies (c : CryptoOps) (key : Bytes) (items : List JItem)
       obtain ⟨h1, h2⟩ := hh
       simp only [produceJson, List.map_cons, produce, toPItemJ]
       rw [render_parse_json_partial c st it.fields h1]
+      congr 1
+      exact ih _ h2
+  have hent : ∀ es : List Entry, entriesOf (es.map Line.entry) = es := by
+    intro es; induction es with
+    | nil => rfl
+    | cons e r ih => simp [entriesOf, ih]
+  apply honest_verifies c key (items.map toPItemJ)
+  · intro it hit
+    obtain ⟨l, hl, rfl⟩ := List.mem_map.mp hit
+    exact hres l hl
+  · intro l hl
+    rw [hmap items _ hcls] at hl
+    obtain ⟨e, _, rfl⟩ := List.mem_map.mp hl
+    simp
+  · rw [hmap items _ hcls, hent]
+
+/-! #### JSON with nested values (arrays and objects as field values, to any depth) -/
+
+/-- the class of `render_parse_json`: like `JsonClass`, with field values that may be arrays and objects nested to any
+depth (`GoodObj`: valid UTF-8 keys; values: strings of valid UTF-8, number literals – readable also as array elements –,
+booleans, `null`, arrays of such values, key-sorted objects of such values). The two registered known findings stay
+excluded. -/
+structure JsonClassN (st : Calc) (o : Obj) : Prop where
+  canonical : Canonical o
+  good : GoodObj o
+  noIntegrity : intKeyB ∉ keysOf o
+  noChainAtStart : st.prev.isNone = true → chainKeyB ∉ keysOf o
+  noChainNew : getKey chainKeyB o ≠ some (.str newValB)
+
+/-- **`unmarshalLogEntry ∘ json.Marshal = id` for nested values** – the hypothesis of `render_parse_json_of_roundtrip`,
+now proved for arrays and objects as values (by recursion over the value; the decoder's fuel, the length of the line,
+always suffices). -/
+theorem decode_marshal_nested (o : Obj) (hc : Canonical o) (hg : GoodObj o) :
+    decodeTop (marshal (.obj o)) = some (some o) :=
+  decodeTop_marshal_nested o hc hg
+
+/-- **Render/parse for the JSON format, nested values included.** For every decoded formatter output whose values are
+strings, number literals, booleans, `null`, or arrays/objects of such values nested to any depth, and whose keys do not
+collide with the hook's own keys, the line the hook writes is parsed back into exactly the bytes the hook authenticated,
+the tag and the chain markers. (This removes the `_partial` of `render_parse_json_partial`: what stays outside is the
+encoder's nesting limit of 10000 and values logrus itself could not encode.) -/
+theorem render_parse_json (c : CryptoOps) (st : Calc) (o : Obj) (h : JsonClassN st o) :
+    jsonParse (jsonHookObj c st o).2 =
+      .entry ⟨conv o, (st.step c (conv o)).2.1, (st.step c (conv o)).2.2, jIsEnd o⟩ := by
+  obtain ⟨hc, hg⟩ := hookMap_classN c st o h.canonical h.good
+  exact render_parse_json_of_roundtrip c st o h.noIntegrity h.noChainAtStart h.noChainNew
+    (decodeTop_marshal_nested _ hc hg)
+
+/-- every entry of a history is in the nested class, in the calculator state it is written in -/
+def JsonHonestN (c : CryptoOps) (key : Bytes) : Calc → List JItem → Prop
+  | _, [] => True
+  | st, it :: r => JsonClassN st it.fields ∧
+    JsonHonestN c key (if it.resetAfter then Calc.new c key else (st.step c (conv it.fields)).1) r
+
+/-- **Honest JSON logs verify, nested field values included.** -/
+theorem honest_json_verifies_nested (c : CryptoOps) (key : Bytes) (items : List JItem)
+    (hcls : JsonHonestN c key (Calc.new c key) items)
+    (hres : ∀ it ∈ items, it.resetAfter = true → jIsEnd it.fields = true) :
+    verify c key ((produceJson c key (Calc.new c key) items).map jsonParse) = .ok := by
+  have hmap : ∀ (its : List JItem) (st : Calc), JsonHonestN c key st its →
+      (produceJson c key st its).map jsonParse = (produce c key st (its.map toPItemJ)).map Line.entry := by
+    intro its
+    induction its with
+    | nil => intro st _; rfl
+    | cons it r ih =>
+      intro st hh
+      obtain ⟨h1, h2⟩ := hh
+      simp only [produceJson, List.map_cons, produce, toPItemJ]
+      rw [render_parse_json c st it.fields h1]
       congr 1
       exact ih _ h2
   have hent : ∀ es : List Entry, entriesOf (es.map Line.entry) = es := by
@@ -814,6 +986,139 @@ theorem single_entry_chain_replay_counterexample (c : CryptoOps) (key d : Bytes)
     verify c key [.entry (entryAt c (Calc.new c key) d true), .entry (entryAt c (Calc.new c key) d true)] = .ok := by
   simp [verify, verifyFrom, VState.entry, VState.init, entryAt, Calc.new, Calc.step, tagOf, Calc.ic]
 
+/-! ### alterations of the FILE (byte level), the last line included -/
+
+/-- the plaintext line of the entry `a` written in calculator state `st` with its authenticated part replaced
+by `d'` (integrity value and chain marker kept) -/
+def editedLine (c : CryptoOps) (st : Calc) (a d' : Bytes) : Bytes :=
+  d' ++ splitTok ++ hexEnc (st.step c a).2.1 ++ (if (st.step c a).2.2 then newSuffix else [])
+
+/-- **An edited entry is detected in the FILE – at every position, the LAST line included, with or without a
+final line break.** Plaintext format, byte level: after any honest history `pre` the line of the next entry `a`
+gets another authenticated part `d'` (tag kept); whatever lines follow (`post`, arbitrary bytes – none when the
+edited entry is the last one), and whether or not the file ends in `\n`, `acra-log-verifier` fails at that line. -/
+theorem plaintext_file_edit_detected (c : CryptoOps) (key : Bytes) (pre : List LItem) (a d' : Bytes) (post : List Bytes)
+    (term : Bool)
+    (hres : ∀ it ∈ pre, it.resetAfter = true → isEndData it.formatted = true)
+    (hlf : ∀ it ∈ pre, ∀ x ∈ it.formatted, x ≠ 10) (hd'lf : ∀ x ∈ d', x ≠ 10)
+    (hpost : ∀ l ∈ post, (∀ x ∈ l, x ≠ 10) ∧ l.getLast? ≠ some 13)
+    (hlast : term = false → post.getLast? ≠ some [])
+    (hd : d' ≠ a)
+    (hnc : NoCollision c (pstate c key (pre.map toPItem)) d' (pstate c key (pre.map toPItem)) a) :
+    verifyFile c key (parseLine .last false)
+        (fileOf (produceLines c key (Calc.new c key) pre ++
+          editedLine c (pstate c key (pre.map toPItem)) a d' :: post) term) =
+      .fail pre.length .mismatch := by
+  have hedclean := rendered_clean d' ((pstate c key (pre.map toPItem)).step c a).2.1
+    ((pstate c key (pre.map toPItem)).step c a).2.2 hd'lf
+  have hedeq : d' ++ splitTok ++ tagPart ((pstate c key (pre.map toPItem)).step c a).2.1
+      ((pstate c key (pre.map toPItem)).step c a).2.2 = editedLine c (pstate c key (pre.map toPItem)) a d' := by
+    simp [editedLine, tagPart, List.append_assoc]
+  rw [hedeq] at hedclean
+  have hne : editedLine c (pstate c key (pre.map toPItem)) a d' ≠ [] := by
+    intro h
+    have := rendered_nonempty d' (hexEnc ((pstate c key (pre.map toPItem)).step c a).2.1 ++
+      (if ((pstate c key (pre.map toPItem)).step c a).2.2 then newSuffix else []))
+    rw [← List.append_assoc] at this
+    unfold editedLine at h
+    rw [h] at this
+    cases this
+  rw [file_verdict_is_lines_verdict]
+  · rw [List.map_append, List.map_cons, plaintext_lines_parse]
+    have hpar : parseLine .last false (editedLine c (pstate c key (pre.map toPItem)) a d') =
+        Line.entry { entryAt c (pstate c key (pre.map toPItem)) a (isEndData d') with data := d' } := by
+      unfold editedLine
+      rw [render_parse_plain]
+      rfl
+    rw [hpar]
+    have := edit_detected c key (pre.map toPItem) ⟨a, false, false⟩ d' (isEndData d') (post.map (parseLine .last false))
+      (by
+        intro it hit
+        obtain ⟨l, hl, rfl⟩ := List.mem_map.mp hit
+        exact hres l hl) hd hnc
+    simpa using this
+  · intro l hl
+    rcases List.mem_append.mp hl with h | h
+    · exact plaintext_lines_clean c key pre _ hlf l h
+    · rcases List.mem_cons.mp h with rfl | h
+      · exact hedclean
+      · exact hpost l h
+  · intro ht
+    cases post with
+    | nil =>
+      rw [List.getLast?_append]
+      simp [hne]
+    | cons q r =>
+      have := hlast ht
+      rw [List.getLast?_append]
+      simpa using this
+
+/-- **A last line cut inside its integrity value is detected** (plaintext, byte level; with or without a final
+line break). The file ends in the line of entry `a` cut after a proper part `p` of its hex integrity value
+(`p` may be empty): the verifier fails AT THAT LINE – with a parse error when `p` has odd length, with a mismatch
+otherwise – for a hash whose outputs all have one length (true of SHA-256). (A line cut before ` integrity=`
+is an unprotected line: that is truncation of the log, which the statement does not claim – `truncation_allowed`.) -/
+theorem plaintext_file_cut_last_line_detected (c : CryptoOps) (key : Bytes) (pre : List LItem) (a p q : Bytes) (term : Bool)
+    (hres : ∀ it ∈ pre, it.resetAfter = true → isEndData it.formatted = true)
+    (hlf : ∀ it ∈ pre, ∀ x ∈ it.formatted, x ≠ 10) (half : ∀ x ∈ a, x ≠ 10)
+    (hlen : ∀ m m', (c.sha256 m).length = (c.sha256 m').length)
+    (hcut : hexEnc (tagOf c (pstate c key (pre.map toPItem)) a) = p ++ q) (hq : q ≠ []) :
+    ∃ k, verifyFile c key (parseLine .last false)
+        (fileOf (produceLines c key (Calc.new c key) pre ++ [a ++ splitTok ++ p]) term) = .fail pre.length k := by
+  have hpmem : ∀ x ∈ p, x ∈ hexEnc (tagOf c (pstate c key (pre.map toPItem)) a) := by
+    intro x hx; rw [hcut]; exact List.mem_append_left _ hx
+  have hp32 : ∀ x ∈ p, x ≠ 32 := fun x hx => hexEnc_ne_space _ x (hpmem x hx)
+  have hpplain : ∀ x ∈ p, plainByte x = true := fun x hx => hexEnc_plain _ x (hpmem x hx)
+  have hres' : ∀ it ∈ pre.map toPItem, it.resetAfter = true → it.isEnd = true := by
+    intro it hit
+    obtain ⟨l, hl, rfl⟩ := List.mem_map.mp hit
+    exact hres l hl
+  rw [file_verdict_is_lines_verdict]
+  · rw [List.map_append, List.map_cons, List.map_nil, plaintext_lines_parse, parse_cut_tag a p hp32]
+    cases hdec : hexDec p with
+    | none =>
+      refine ⟨.parse, ?_⟩
+      have hv := verifyFrom_honest_prefix c key (pre.map toPItem) (Calc.new c key) (VState.init c key) 0 [Line.bad]
+        (inStep_init c key) hres'
+      unfold verify honestLines
+      rw [hv.2]
+      simp [verifyFrom]
+    | some t =>
+      refine ⟨.mismatch, ?_⟩
+      have hv := verify_prefix_entry c key (pre.map toPItem) ⟨a, t, false, isEndData a⟩ [] hres'
+      simp only [] at hv ⊢
+      rw [hv, entry_old c key _ _ rfl]
+      have hne : t ≠ tagOf c (vstate c key (pre.map toPItem)).cal a := by
+        intro e
+        have h1 := hexDec_length p.length p t (Nat.le_refl _) hdec
+        have h2 := hexEnc_length (tagOf c (pstate c key (pre.map toPItem)) a)
+        rw [hcut, List.length_append] at h2
+        have h3 : (tagOf c (vstate c key (pre.map toPItem)).cal a).length =
+            (tagOf c (pstate c key (pre.map toPItem)) a).length := hlen _ _
+        have h4 : 0 < q.length := List.length_pos_iff.mpr hq
+        rw [← e] at h3
+        omega
+      simp [hne]
+  · intro l hl
+    rcases List.mem_append.mp hl with h | h
+    · exact plaintext_lines_clean c key pre _ hlf l h
+    · rw [List.mem_singleton] at h
+      subst h
+      exact cut_line_clean a p half hpplain
+  · intro _ h
+    rw [List.getLast?_concat] at h
+    have hn := rendered_nonempty a p
+    rw [Option.some.inj h] at hn
+    cases hn
+
+/-- **Seeded change C20-5 as a theorem about the model.** With the `io.EOF` return standing BEFORE the delivering
+branch the reader hands out only the terminated lines: whatever stands in an unterminated last line (here an
+entry whose integrity value is garbage) is never seen by the verifier. Excluded by `fact_reader_loop`. -/
+theorem eof_return_before_deliver_drops_last_line_counterexample :
+    scanLinesWith "reader" ["read", "return-eof", "return-any-err", "deliver"] stdTrims (strB "a\nb integrity=zz") = [strB "a"] ∧
+    scanLinesWith "reader" stdLoop stdTrims (strB "a\nb integrity=zz") = [strB "a", strB "b integrity=zz"] := by
+  decide
+
 /-- **Truncation is allowed** (not a defect per the statement): every prefix of an honest log verifies. -/
 theorem truncation_allowed (c : CryptoOps) (key : Bytes) (items more : List PItem)
     (hres : ∀ it ∈ items ++ more, it.resetAfter = true → it.isEnd = true) :
@@ -1035,5 +1340,104 @@ example : verify toyOps [7] ((produceJson toyOps [7] (Calc.new toyOps [7])
 /-- `json_retype_changes_bytes` on `"3"` ↦ `3` -/
 example : conv (setKey (strB "n") (.str (strB "3")) sampleFields) ≠ conv (setKey (strB "n") (.num (strB "3")) sampleFields) :=
   json_retype_changes_bytes _ _ _ _ ⟨0x33, [], by decide, by decide⟩
+
+/-! ### non-vacuity of the file-level theorems -/
+
+/-- `plaintext_file_edit_detected`: the LAST entry of a two-entry log edited, file without final line break -/
+example : verifyFile toyOps [7] (parseLine .last false)
+    (fileOf (produceLines toyOps [7] (Calc.new toyOps [7]) [⟨strB "msg=a", false⟩] ++
+      [editedLine toyOps (pstate toyOps [7] ([⟨strB "msg=a", false⟩].map toPItem)) (strB "msg=b") (strB "msg=X")]) false) =
+    .fail 1 .mismatch :=
+  plaintext_file_edit_detected toyOps [7] [⟨strB "msg=a", false⟩] (strB "msg=b") (strB "msg=X") [] false
+    (by intro it h; simp at h; subst h; intro h; cases h)
+    (by intro it h; simp at h; subst h; decide) (by decide) (by intro l h; cases h) (by intro _; simp) (by decide)
+    (toy_noCollision _ _ _ _)
+
+/-- a hash with outputs of one length (the hypothesis `hlen` of `plaintext_file_cut_last_line_detected`) -/
+def lenOps : CryptoOps := { boxOps with sha256 := fun _ => [1, 2] }
+
+/-- `plaintext_file_cut_last_line_detected`: the last line cut in the middle of its integrity value `0102` -/
+example : ∃ k, verifyFile lenOps [7] (parseLine .last false)
+    (fileOf (produceLines lenOps [7] (Calc.new lenOps [7]) [⟨strB "msg=a", false⟩] ++
+      [strB "msg=b" ++ splitTok ++ strB "01"]) false) = .fail 1 k :=
+  plaintext_file_cut_last_line_detected lenOps [7] [⟨strB "msg=a", false⟩] (strB "msg=b") (strB "01") (strB "02") false
+    (by intro it h; simp at h; subst h; intro h; cases h)
+    (by intro it h; simp at h; subst h; decide) (by decide) (fun _ _ => rfl) (by decide) (by decide)
+
+/-- `file_verdict_is_lines_verdict` / `files_verdict_is_lines_verdict` on two rotated files, the first without its
+final line break -/
+example : verifyFiles toyOps [7] (parseLine .last false) [fileOf [strB "x", strB "y"] false, fileOf [strB "z"] true] =
+    verify toyOps [7] ([strB "x", strB "y", strB "z"].map (parseLine .last false)) :=
+  files_verdict_is_lines_verdict toyOps [7] _ [([strB "x", strB "y"], false), ([strB "z"], true)]
+    (by decide) (by decide)
+
+/-! ### non-vacuity of the nested JSON theorems -/
+
+/-- `{"ids":[1,-2.5,"a\n",[true,null],{"k":[]}],"msg":"m","o":{"a":{"b":"x"},"n":0}}` – arrays in arrays, objects in arrays,
+objects in objects, empty array, numbers as array elements -/
+def nestedFields : Obj :=
+  [(strB "ids", .arr [.num (strB "1"), .num (strB "-2.5"), .str (strB "a\n"), .arr [.bool true, .null], .obj [(strB "k", .arr [])]]),
+   (strB "msg", .str (strB "m")),
+   (strB "o", .obj [(strB "a", .obj [(strB "b", .str (strB "x"))]), (strB "n", .num (strB "0"))])]
+
+theorem nested_good : GoodObj nestedFields := by
+  have va : ∀ s : String, (∀ x ∈ strB s, x.toNat < 0x80) → ValidUtf8 (strB s) := fun s h => validUtf8_ascii _ h
+  have n1 : NumLitV (strB "1") := (numLitV_int [0x31] (by decide) (by decide) (by decide)).1
+  have n0 : NumLitV (strB "0") := (numLitV_int [0x30] (by decide) (by decide) (by decide)).1
+  have n25 : NumLitV (strB "-2.5") := (numLitV_frac [0x32] [0x35] (by decide) (by decide) (by decide) (by decide) (by decide)).2
+  intro kv hkv
+  simp only [nestedFields, List.mem_cons, List.mem_nil_iff, or_false] at hkv
+  rcases hkv with rfl | rfl | rfl
+  · refine ⟨va _ (by decide), .arr _ ?_⟩
+    intro x hx
+    simp only [List.mem_cons, List.mem_nil_iff, or_false] at hx
+    rcases hx with rfl | rfl | rfl | rfl | rfl
+    · exact .scalar _ (.num _ n1)
+    · exact .scalar _ (.num _ n25)
+    · exact .scalar _ (.str _ (va _ (by decide)))
+    · refine .arr _ ?_
+      intro y hy
+      simp only [List.mem_cons, List.mem_nil_iff, or_false] at hy
+      rcases hy with rfl | rfl
+      · exact .scalar _ (.bool true)
+      · exact .scalar _ .null
+    · refine .obj _ (by simp [Canonical]) ?_ ?_
+      · intro kv h; simp at h; subst h; exact va _ (by decide)
+      · intro kv h; simp at h; subst h; exact .arr _ (by intro z hz; cases hz)
+  · exact ⟨va _ (by decide), .scalar _ (.str _ (va _ (by decide)))⟩
+  · refine ⟨va _ (by decide), .obj _ ?_ ?_ ?_⟩
+    · unfold Canonical
+      simp only [List.pairwise_cons]
+      decide
+    · intro kv h
+      simp only [List.mem_cons, List.mem_nil_iff, or_false] at h
+      rcases h with rfl | rfl <;> exact va _ (by decide)
+    · intro kv h
+      simp only [List.mem_cons, List.mem_nil_iff, or_false] at h
+      rcases h with rfl | rfl
+      · refine .obj _ (by simp [Canonical]) ?_ ?_
+        · intro kv h; simp at h; subst h; exact va _ (by decide)
+        · intro kv h; simp at h; subst h; exact .scalar _ (.str _ (va _ (by decide)))
+      · exact .scalar _ (.num _ n0)
+
+theorem nested_class (st : Calc) : JsonClassN st nestedFields where
+  canonical := by
+    unfold Canonical nestedFields
+    simp only [List.pairwise_cons]
+    decide
+  good := nested_good
+  noIntegrity := by decide
+  noChainAtStart := fun _ => by decide
+  noChainNew := by
+    rw [(getKey_none_iff _ _).mpr (by decide)]
+    simp
+
+/-- `honest_json_verifies_nested` on a history of two such entries -/
+example : verify toyOps [7] ((produceJson toyOps [7] (Calc.new toyOps [7])
+    [⟨nestedFields, false⟩, ⟨nestedFields, false⟩]).map jsonParse) = .ok :=
+  honest_json_verifies_nested toyOps [7] _ ⟨nested_class _, nested_class _, trivial⟩ (by
+    intro it h
+    simp at h
+    rcases h with rfl | rfl <;> (intro h; cases h))
 
 end AcraModel.Props.C20
